@@ -71,21 +71,23 @@ REQUIRED_FEATURES = ["ref:ll1-as-written", "ref:not-ll1-as-written", "impl:table
                      "family:blank", "config:skip_tokens-empty", "config:skip_tokens-None",
                      "config:skip_tokens-SPACE", "config:sentence-with-blank-token",
                      "history:override-then-plain-parse", "history:override-call-returned-tree",
-                     "history:override-call-failed"]
+                     "history:override-call-failed",
+                     "family:syn", "config:syn-chain", "config:syn-identity", "config:syn-merge"]
 
 _SPACES = {
     # (kind, params..., input length, shards)
     "quick": [("sized", "EA", "ab", 2, 2, 5, 4, 16), ("sized", "EAB", "a", 2, 3, 6, 4, 48),
               ("follow", "xyb", 3, True, True, False, 3, 160, False),
               ("wide", "pqzcdefgh", 0, 0, 0, 0, 3, 8), ("diverge", "pabcdxy", 0, 0, 0, 0, 3, 8),
-              ("blank", "EA", "blank", 2, 2, 4, 4, 16)],
+              ("blank", "EA", "blank", 2, 2, 4, 4, 16), ("syn", "", 0, 0, 0, 0, 3, 4)],
     "thorough": [("sized", "EA", "ab", 3, 3, 6, 5, 32), ("sized", "EA", "ab", 3, 3, 7, 4, 160),
                  ("sized", "EAB", "a", 2, 3, 6, 5, 64), ("sized", "EAB", "ab", 2, 2, 5, 4, 32),
                  ("follow", "xyb", 3, False, True, False, 4, 400, True),
                  ("follow", "xy", 3, False, False, True, 4, 120, True),
                  ("follow2", "xy", 0, 0, 0, 0, 4, 64),
                  ("prefix", "ab", True, 4, 0, 0, 5, 64), ("wide", "pqzcdefgh", 0, 0, 0, 0, 4, 48),
-                 ("diverge", "pabcdxy", 0, 0, 0, 0, 4, 24), ("blank", "EA", "blank", 2, 2, 5, 5, 32)],
+                 ("diverge", "pabcdxy", 0, 0, 0, 0, 4, 24), ("blank", "EA", "blank", 2, 2, 5, 5, 32),
+                 ("syn", "", 0, 0, 0, 0, 4, 4)],
 }
 # spaces explored in both insertion orders of the productions dict
 _BOTH_ORDERS = ("sized", "follow2")
@@ -111,6 +113,9 @@ def _space_gen(sp, k, K):
     if kind == "wide":
         cfg = G.letters_cfg(sp[1])
         return cfg, sp[6], (g for j, g in enumerate(G.family_wide(cfg.terms)) if j % K == k)
+    if kind == "syn":
+        cfg = G.syn_cfg(sorted(G.SYN_MAPS)[k])
+        return cfg, sp[6], iter(G.family_syn(cfg.terms))
     if kind == "blank":
         _, nts, key, ma, ml, ms, L, _ = sp
         cfg = G.blank_cfg()
@@ -142,6 +147,11 @@ def bounds(tier):
                         "one_representative_per_terminal_renaming": canonical,
                         "rich_symbol_in_own_alternatives_behind_terminal": self_ref,
                         "grammars": "counted at run time (feature family:follow)", "input_len_max": L})
+        elif sp[0] == "syn":
+            out.append({"space": "synonym-map family: tokenizer configurations whose synonyms rename re groups in "
+                                 "chains / to themselves x tiny LL(1) grammars over the final token names",
+                        "synonym_maps": {k_: v[0] for k_, v in G.SYN_MAPS.items()},
+                        "grammars_per_map": len(G.family_syn(("a", "b", "c", "d"))), "input_len_max": sp[6]})
         elif sp[0] == "blank":
             _, nts, key, ma, ml, ms, L, _ = sp
             out.append({"space": "sized x constructor option skip_tokens (tokenizer with SPACE and COMMENT groups; "
@@ -480,6 +490,8 @@ def run_shard(shard, tier, seed, acc):
                                                   seq_len=0 if rev else seq_len)
             if rev:
                 feats.append("order:start-symbol-last")
+            if sp[0] == "syn":
+                feats.append("config:" + cfg.key)
             if sp[0] in ("diverge", "prefix") and G.non_monotone_divergence(dict(prods)):
                 feats.append("prefix-family:non-monotone-divergence")
                 if "c" in out:
